@@ -38,6 +38,13 @@ def gen_group(rng, thorough):
     items.append({"k": "value", "spec": ["frozenset", G._uniq(els)]})
     items.append({"k": "value", "spec": ["dict", [[["str", s], ["set", [["str", t] for t in "abcdefg"[:rng.randint(2, 7)]]]]
                                                   for s in rng.sample(["k1", "k2", "zz", "a", "B"], 3)]]})
+    # >=2-d arrays: the construction variants build them C- or Fortran-ordered, the pickling variant makes them contiguous
+    for _ in range(2):
+        while True:
+            arr = G.gen_array(rng)
+            if len(arr[2]) >= 2 and min(arr[2]) >= 2 and len(set(map(str, arr[3]))) > 1:
+                break
+        items.append({"k": "value", "spec": arr if rng.random() < 0.5 else ["list", [arr, ["int", 1]]]})
     items.append({"k": "xor", "a": rng.randint(1, 5), "c": rng.randint(1, 5)})
     items.append({"k": "outer-xor", "groups": 2, "n": rng.randint(1, 9)})
     items.append({"k": "outer-xor", "groups": 1, "n": rng.randint(1, 9)})
@@ -149,7 +156,7 @@ def group_case(case, wctx):
 def run(ctx):
     quick = ctx.tier == "quick"
     ng = 8 if quick else 64
-    ctx.rule = (f"groups of {NVAL + 6} items (generated values incl. frozensets of frozensets and permuted dict/set "
+    ctx.rule = (f"groups of {NVAL + 8} items (generated values incl. C-/Fortran-built >=2-d arrays, frozensets of frozensets and permuted dict/set "
                 "orders, xor-group tasks as values, a file-input task) whose checksum and value hash are computed in "
                 "4 (thorough: 6) fresh interpreters with different PYTHONHASHSEED / insertion order / pickling, plus "
                 "run-reuse across sessions, workers and cache roots; non-trivial = container/array value or task/file "
